@@ -83,6 +83,7 @@ class MockCA:
             "order_polls_before_ready": 0,
             "order_polls_before_valid": 0,
             "chain_len": 2,
+            "chain_pad": 0,       # > 0: that many extra names in every upper certificate (a BIG chain)
             "valid_secs": 90 * 86400,
             "authz_status": {},           # identifier value -> initial status
             "nonce_on_get": True,
@@ -598,7 +599,7 @@ class MockCA:
         elif od["status"] == "processing":
             if od["polls_valid"] >= o["order_polls_before_valid"]:
                 r = self.h.call({"op": "issue", "csr_b64": od["csr"], "chain_len": o["chain_len"],
-                                 "valid_secs": o["valid_secs"]})
+                                 "valid_secs": o["valid_secs"], "pad": o.get("chain_pad", 0)})
                 if "pem" in r:
                     self.obj_ctr += 1
                     cid = str(self.obj_ctr)
